@@ -374,6 +374,39 @@ def linalg_cases(tier):
                                np=(lambda o, ax, k: lambda a: np.linalg.norm(a, ord=o, axis=ax, keepdims=k))(ord_, axis, keepdims))
 
 
+def special_value_cases(tier):
+    import mygrad as mg
+    from mygrad.linalg import norm
+
+    # norms at exact zero entries: differentiable there for ord > 1 (derivative 0); ord=1 and the zero vector are
+    # covered by the documented nan_to_num convention (0 instead of nan)
+    for x in (np.array([0.0, 1.5, -2.0]), np.array([[0.0, 1.5, -2.0], [0.75, 0.0, 0.0]])):
+        for ord_ in (1.25, 1.5, 1.75, 2, 2.5, 3, None):
+            for axis in ((None,) if x.ndim == 1 else (0, 1, -1)):
+                for keepdims in (False, True):
+                    def sh(a, ord_=ord_, axis=axis, keepdims=keepdims):
+                        o = 2 if ord_ is None else ord_
+                        return np.sum(c_abs(a) ** o, axis=axis, keepdims=keepdims) ** (1.0 / o)
+
+                    lanes_zero = np.any(np.sum(np.abs(x), axis=axis) == 0) if axis is not None else not np.any(x)
+                    if lanes_zero:
+                        continue  # the all-zero lane is a genuine kink
+                    yield dict(name="norm with zero entries %s ord=%r axis=%r keepdims=%r" % (x.shape, ord_, axis, keepdims), op="norm", operands=[x], zero_where_input_zero=True,
+                               mg=(lambda o, ax, k: lambda a: norm(a, ord=o, axis=ax, keepdims=k))(ord_, axis, keepdims), shadow=sh, np=None)
+    # where: every accepted kind of condition
+    a, b = vals((2, 3), 1), vals((2, 3), 7)
+    conds = [("bool array", np.array([[True, False, True], [False, False, True]])), ("int 0/1 array", np.array([[1, 0, 1], [0, 0, 1]])),
+             ("general int array", np.array([[2, 0, -1], [0, 0, 7]])), ("uint8 array", np.array([[1, 0, 1], [0, 0, 1]], dtype=np.uint8)),
+             ("float array", np.array([[1.0, 0.0, 0.5], [0.0, 0.0, 2.0]])), ("nested list", [[True, False, True], [False, False, True]]),
+             ("broadcast (3,)", np.array([1, 0, 1])), ("0-d True", np.array(True)), ("0-d int 0", np.array(0)), ("python bool", False)]
+    for label, c in conds:
+        cb = np.asarray(c).astype(bool)
+        yield dict(name="where cond=%s" % label, op="where", operands=[a, b], mg=(lambda c: lambda x, y: mg.where(c, x, y))(c),
+                   shadow=(lambda cb: lambda x, y: np.where(cb, x, y))(cb), np=(lambda c: lambda x, y: np.where(c, x, y))(c))
+        yield dict(name="where cond=%s (tensor condition)" % label, op="where", operands=[a, b], mg=(lambda c: lambda x, y: mg.where(mg.tensor(c), x, y))(c),
+                   shadow=(lambda cb: lambda x, y: np.where(cb, x, y))(cb), np=None)
+
+
 INDEXES = [
     ("0", lambda: 0), ("-1", lambda: -1), ("1:", lambda: slice(1, None)), ("::-1", lambda: slice(None, None, -1)), ("::2", lambda: slice(None, None, 2)),
     ("-1::-2", lambda: slice(-1, None, -2)), ("...", lambda: ...), ("None", lambda: None), ("..., None", lambda: (..., None)), ("[0, 0, 1]", lambda: [0, 0, 1]),
@@ -516,4 +549,5 @@ def manip_cases(tier):
 
 
 def all_cases(tier):
-    return itertools.chain(unary_ufunc_cases(tier), binary_ufunc_cases(tier), sequential_cases(tier), linalg_cases(tier), index_cases(tier), manip_cases(tier))
+    return itertools.chain(unary_ufunc_cases(tier), binary_ufunc_cases(tier), sequential_cases(tier), linalg_cases(tier), index_cases(tier), manip_cases(tier),
+                           special_value_cases(tier))
